@@ -34,6 +34,14 @@ type Model[S any] struct {
 	// new state and on every history that is merged into an existing key; a
 	// disagreement means the key abstraction is unsound (exit 3).
 	Probe func(s S) string
+	// EnvOp / SaveEnv / RestoreEnv (optional): operations that change only the
+	// environment (the frozen clock) and leave the real objects untouched can be
+	// applied to ONE instance of the parent state, restoring the environment in
+	// between, instead of rebuilding the parent for each of them. Used only when
+	// Check and Probe are nil (they may consume the instance).
+	EnvOp      func(op int) bool
+	SaveEnv    func(s S) any
+	RestoreEnv func(s S, env any)
 	// MaxDepth bounds history length (0 = run to fixpoint).
 	MaxDepth int
 	// MaxStates caps the search (0 = none); hitting it clears Exhaustive.
@@ -89,8 +97,12 @@ func (m *Model[S]) Run(rep *Report) XResult {
 	var frontier [][]int
 	sharded := m.Shard.N > 1
 	common := sharded // true while at depth <= ShardLevel: work every worker repeats
+	var visitBuilt func(s S, hist []int, obs []string) bool
 	visit := func(hist []int) bool {
 		s, obs := m.Build(hist)
+		return visitBuilt(s, hist, obs)
+	}
+	visitBuilt = func(s S, hist []int, obs []string) bool {
 		if m.OnTransition != nil && len(hist) > 0 && (!common || m.Shard.I == 0) {
 			m.OnTransition(s, hist, obs, rep)
 		}
@@ -163,12 +175,30 @@ func (m *Model[S]) Run(rep *Report) XResult {
 					en = append(en, op)
 				}
 			}
+			shareParent := m.EnvOp != nil && m.Check == nil && m.Probe == nil
+			var parent S
+			var parentObs []string
+			var env any
+			haveParent := false
 			for _, op := range en {
 				h2 := append(append(make([]int, 0, len(hist)+1), hist...), op)
 				if !common || m.Shard.I == 0 {
 					res.Transitions++
 				}
-				if visit(h2) {
+				var isNew bool
+				if shareParent && m.EnvOp(op) {
+					if !haveParent {
+						parent, parentObs = m.Build(hist)
+						env = m.SaveEnv(parent)
+						haveParent = true
+					}
+					o := m.Apply(parent, op)
+					isNew = visitBuilt(parent, h2, append(append(make([]string, 0, len(parentObs)+1), parentObs...), o))
+					m.RestoreEnv(parent, env)
+				} else {
+					isNew = visit(h2)
+				}
+				if isNew {
 					next = append(next, h2)
 					if m.MaxStates > 0 && res.States >= m.MaxStates {
 						res.Complete = false
